@@ -339,6 +339,12 @@ def run(ctx):
                         and not (isinstance(c_.func, ast.Attribute) and isinstance(c_.func.value, ast.Name) and c_.func.value.id not in ("os", "shutil", "self")):
                     n_rm += 1
                     if q_.split(".")[-1] not in ("clean_up", "cleanup_tempfile"):
+                        # (a private helper that only clean_up() calls is part of clean_up)
+                        short_ = q_.split(".")[-1]
+                        callers_ = [q2_ for q2_, f2_ in ctx.src(rel_).funcs.items() if q2_ != q_ and any(
+                            isinstance(x, ast.Call) and (call_name(x) or "").split(".")[-1] == short_ for x in ast.walk(f2_))]
+                        if short_.startswith("_") and callers_ and all(q2_.split(".")[-1] in ("clean_up", "cleanup_tempfile") for q2_ in callers_):
+                            continue
                         misplaced.append((rel_, q_, c_))
     ctx.floor("file-removals-in-applications", n_rm, 20)
     for rel_, q_, c_ in misplaced or [(None, None, None)]:
